@@ -194,6 +194,27 @@ def cases(tier):
             add('route-cmp|%s|%d' % (name, v), '(cmp(%s, %s), cmp(%s, %s), cmp(%s, 0))' % (
                 src, routes['lit'], src, xint(v + 1), src), (0, -1, sign(v)))
             add('route-key|%s|%d' % (name, v), 'mapping<int>().set(%s, 1).get(%s)' % (routes['lit'], src), 1)
+    # float -> int conversions are exact for every finite float (floor / ceil / trunc)
+    import struct
+    fls = set()
+    for k in (0, 1, 31, 52, 53, 62, 63, 64, 65, 100, 127, 128, 1023):
+        base = float(2 ** k)
+        bits = struct.unpack('<q', struct.pack('<d', base))[0]
+        for d in (-2, -1, 0, 1, 2):
+            f = struct.unpack('<d', struct.pack('<q', bits + d))[0]
+            fls.update((f, -f))
+    fls.update((0.0, 0.5, -0.5, 1.5, -1.5, 2.5, 1e15 + 0.5, -1e15 - 0.5, 4503599627370495.5, 9007199254740993.0, 1e300, -1e300,
+                1.7976931348623157e308, 5e-324, -5e-324, 0.9999999999999999))
+    for v in P:
+        try:
+            f = float(v)
+        except OverflowError:
+            continue
+        fls.add(f)
+    from ..core import xfloat
+    for f in sorted(fls):
+        for fn, pf in (('floor', math.floor), ('ceil', math.ceil), ('trunc', math.trunc)):
+            add('%s|%r' % (fn, f), '%s(%s)' % (fn, xfloat(f)), pf(f))
     # factorial, binomial, multinomial, roots
     for n in range(0, 26 if tier == 'quick' else 61):
         add('factorial|%d' % n, 'factorial(%d)' % n, math.factorial(n))
